@@ -4,5 +4,5 @@ From Coq Require Import Extraction ExtrOcamlBasic ZArith List.
 From Acme.C03 Require Import Model.
 Extraction Language OCaml.
 Extraction "extracted/c03_model.ml" decode_std decode_enum int_range calc_size calc_value
-  enum_new enum_step enum_ok enum_size e_max e_values mux_selector_size mux_size
+  enum_new enum_step enum_ok enum_size e_max e_min e_values mux_selector_size mux_size
   f64_of_bits bits_of_f64 sext_if.
